@@ -100,7 +100,7 @@ PORT_RE = re.compile(r":\d*\Z")
 def host_candidates(s):
     """Every plausible host[:port] of the stripped string.  Readings admitted:
     * the protocol (lenient definition above) is removed if present -- and, since an RFC scheme may
-      contain dots ("ww.co.uk//x"), the reading without removal is admitted too;
+      contain dots ("ww.co.uk//x"), the reading without removal is admitted too in that case;
     * the authority ends at the first '/', '?', '#' or '\\' -- with or without also ending at the
       first whitespace character (the URL grammar of the library lets Unicode separators be part of a
       host label);
@@ -108,9 +108,12 @@ def host_candidates(s):
       authority; the dperini-style grammar lets userinfo run over '/', so any '@' is admitted)."""
     t = s.strip()
     m = PROTO_RE.match(t)
-    rests = [t]
-    if m:
-        rests.append(t[m.end():])
+    if m is None:
+        rests = [t]
+    elif "." in m.group(0):
+        rests = [t, t[m.end():]]
+    else:
+        rests = [t[m.end():]]
     out = set()
     for rest in rests:
         starts = [0] + [i + 1 for i, c in enumerate(rest) if c == "@"]
